@@ -353,3 +353,49 @@ def mpb_post(self, x, n, exact, r):
 
 def mpb_raises(self, x, n, exact):
     return bounded_raises(self, x, exact, mpb_R(self, x, n), True, True)
+
+
+# ---------------------------------------------------------------------------
+# MPFixed family: F(nmin) = { m * 2^q : q > nmin } (+ -0 iff enable_neg_zero)
+
+def mpx_post(self, x, n, exact, r):
+    nan = op_nan(x)
+    inf = op_inf(x)
+    xr = op_real(x)
+    fin = not nan and not inf
+    nz = fin and xr._c != 0
+    R = mpx_R(self, x, n)
+    return {
+        'ctx': same_obj(r._ctx, self),
+        # K5 special values (NaN keeps the operand's sign; substitutes are copied as configured)
+        'nan_enabled': implies(nan and self.enable_nan, r._isnan and not r._isinf and r._real._s == xr._s),
+        'nan_subst': (same_real(r._real, self.nan_value._real) and r._isnan == self.nan_value._isnan
+                      and r._isinf == self.nan_value._isinf) if (nan and not self.enable_nan and self.nan_value is not None) else True,
+        'inf_enabled': implies(inf and self.enable_inf, r._isinf and not r._isnan and r._real._s == xr._s),
+        'inf_subst': (same_real(r._real, self.inf_value._real) and r._isnan == self.inf_value._isnan
+                      and r._isinf == self.inf_value._isinf) if (inf and not self.enable_inf and self.inf_value is not None) else True,
+        # K2 zero keeps its sign iff the format has a negative zero; no flags
+        'zero': implies(fin and xr._c == 0, fl_finite(r) and r._real._c == 0
+                        and r._real._s == (xr._s and self.enable_neg_zero) and flags_clear(r._real)),
+        # K2/K3 finite nonzero
+        'finite': implies(nz, fl_finite(r)),
+        'sign': implies(nz, r._real._s == (xr._s and (self.enable_neg_zero or R[1] != 0))),
+        'exp': implies(nz, r._real._exp == R[0]),
+        'c': implies(nz, r._real._c == R[1]),
+        'inexact': implies(nz, r._real._flags.inexact == R[2]),
+        'no_overflow': implies(nz, not r._real._flags.overflow),
+        # K1 member of the format
+        'member_n': implies(nz, r._real._exp > n) if n is not None else True,
+        'member_nmin': implies(nz, r._real._exp > self.nmin),
+        'member_neg_zero': implies(nz and r._real._c == 0 and not self.enable_neg_zero, not r._real._s),
+    }
+
+
+def mpx_raises(self, x, n, exact):
+    nan = op_nan(x)
+    inf = op_inf(x)
+    return {
+        'ValueError': (nan and not self.enable_nan and self.nan_value is None)
+                      or (inf and not self.enable_inf and self.inf_value is None)
+                      or (op_nonzero(x) and exact and mpx_R(self, x, n)[2]),
+    }
